@@ -97,8 +97,8 @@ def gen_case(rng: random.Random, tier: str) -> dict:
             nulls = sorted({i for i in range(n) for c in FORMS[f] if col_values(frame, c)[i] is None} | ctx_nulls(f, n))
             caller = sorted(set(nulls) | (set(caller) if rng.random() < 0.5 else set()))
         mat = rng.choice(["pandas", "pandas", "pandas", "narwhals"])
-        entry = rng.choice(["mm", "formula", "spec", "spec_over", "mat"])
-        if mat == "narwhals" and entry == "mat":
+        entry = rng.choice(["mm", "formula", "spec", "spec_over", "mat", "mat_again"])
+        if mat == "narwhals" and entry in ("mat", "mat_again"):
             entry = "mm"
         return {"frame": frame, "formula": f, "na": na, "caller": caller, "output": rng.choice(["pandas", "numpy", "sparse"]),
                 "entry": entry, "mat": mat, "ixk": ixk}
@@ -135,6 +135,14 @@ def run(case, df, s):
         return ModelSpec.from_spec(Formula(f), **kw).get_model_matrix(df, drop_rows=s, context=ctx)
     if entry == "spec_over":
         return ModelSpec.from_spec(Formula(f)).get_model_matrix(df, drop_rows=s, context=ctx, **kw)
+    if entry == "mat_again":  # the materializer object has served another request (other policy, other drop set) before
+        m = PandasMaterializer(df, context=ctx)
+        try:
+            m.get_model_matrix(f, drop_rows={0} if len(df) > 1 else set(), na_action="ignore" if case["na"] != "ignore" else "drop",
+                               output="numpy" if case["output"] != "numpy" else "pandas")
+        except Exception:  # noqa: BLE001  (the first request's own outcome is not the subject here)
+            pass
+        return m.get_model_matrix(f, drop_rows=s, **kw)
     return PandasMaterializer(df, context=ctx).get_model_matrix(f, drop_rows=s, **kw)
 
 
